@@ -119,6 +119,17 @@ func (_this *interfaceBuilder) BuildFromArray(ctx *Context, arrayType events.Arr
 		dst.Set(reflect.ValueOf(string(value)))
 	case events.ArrayTypeResourceID:
 		setPRIDFromString(string(value), dst)
+	case events.ArrayTypeBit:
+		// The byte count cannot give the length of a bit array; the element count does.
+		elemCount := len(value) * 8
+		if ctx.arrayElementCount < uint64(elemCount) {
+			elemCount = int(ctx.arrayElementCount)
+		}
+		bits := make([]bool, elemCount)
+		for i := range bits {
+			bits[i] = value[i/8]&(1<<(i&7)) != 0
+		}
+		dst.Set(reflect.ValueOf(bits))
 	default:
 		panic(fmt.Errorf("TODO: Typed array support for %v", arrayType))
 	}
